@@ -44,6 +44,13 @@ type Case struct {
 
 var namedKinds = []string{"pa.Item", "pb.Item", "pa.Box", "pb.Box", "pa.Emb", "tyx.Inner", "tyx.WithEmbed", "tyx.Deep", "tyx.Tags", "tyx.Nums"}
 
+func init() {
+	// holders: types whose leaf type a recomposer learns from one field only (internal/tyx/holders.go)
+	for _, n := range tyx.HolderNames {
+		namedKinds = append(namedKinds, "tyx."+n)
+	}
+}
+
 func TestMain(m *testing.M) {
 	vrt.InitRapid()
 	vrt.RegisterReplay(suite, "trip", Run)
@@ -70,6 +77,9 @@ func build(s Subject, types map[int]reflect.Type, i int) (ptr any, ok bool) {
 		return pb.Sample(s.Named[3:], s.Index), true
 	}
 	want := s.Named[4:]
+	if h := tyx.Holder(want, s.Index); h != nil {
+		return h, true
+	}
 	for k := 0; k < tyx.CatalogueSize; k++ {
 		v := tyx.Catalogue((s.Index + k) % tyx.CatalogueSize)
 		rv := reflect.ValueOf(v)
